@@ -678,8 +678,10 @@ def _edge_guard(ctx, f, g, comp, graph):
     reasons = set()
     npaths = 0
     for p in Exec(prog, unroll=2).paths(fb):
-        ci = [i for i, e in enumerate(p.events) if (e.kind == "call" and e.target == g and not e.frame) or
-              (e.kind == "drop" and not e.frame and g in graph.get(f, ()) and g.endswith("::drop") and
+        def top(e):      # an event of f itself, or of a refactoring helper read inlined into it
+            return not e.frame or (e.body is not None and e.body.name in prog.auto_inline() and prog.bodies[e.body.name].kind != "closure")
+        ci = [i for i, e in enumerate(p.events) if (e.kind == "call" and e.target == g and top(e)) or
+              (e.kind == "drop" and top(e) and g in graph.get(f, ()) and g.endswith("::drop") and
                re.sub(r"<.*$", "", prog.body(g).j.get("impl_self") or "~") in (e.ty or ""))]
         if not ci:
             continue
@@ -716,9 +718,9 @@ def _edge_guard(ctx, f, g, comp, graph):
                 okg = True
                 anyp = False
                 for q in ctx.ex.paths(gb):
-                    nxt = [i for i, e in enumerate(q.events) if (e.kind == "call" and e.target in comp and not e.frame) or
-                           (e.kind == "drop" and not e.frame) or
-                           (e.kind == "call" and e.ntarget == "std::mem::drop" and not e.frame)]
+                    nxt = [i for i, e in enumerate(q.events) if (e.kind == "call" and e.target in comp and top(e)) or
+                           (e.kind == "drop" and top(e)) or
+                           (e.kind == "call" and e.ntarget == "std::mem::drop" and top(e))]
                     if not nxt:
                         continue
                     anyp = True
@@ -744,6 +746,26 @@ def rule_no_unbounded_recursion(ctx):
                    "re-entrancy flag or a state test that the code maintains")
     prog = ctx.prog
     g = sync_call_graph(prog)
+    # helpers a refactoring split off are part of the functions that call them (they are read inlined): contract them, so that a
+    # state test in `finalize` still guards the pin that now sits in `finalize`'s helper
+    helpers = {h for h in prog.auto_inline() if h in g and prog.bodies[h].kind != "closure"}
+    g = {k: set(v) for k, v in g.items()}
+    for _ in range(len(helpers) + 1):
+        changed_ = False
+        for f_ in list(g):
+            hs = g[f_] & helpers
+            if not hs or f_ in helpers:
+                continue
+            for h in hs:
+                g[f_] = (g[f_] - {h}) | (g.get(h, set()) - {f_} if False else g.get(h, set()))
+            changed_ = True
+        if not changed_:
+            break
+    for h in helpers:
+        # a helper that only helpers call has been folded into its callers' callers by the loop above
+        g.pop(h, None)
+    for f_ in g:
+        g[f_] -= helpers
     comps = [c for c in _sccs(g) if len(c) > 1 or c[0] in g.get(c[0], ())]
     n = 0
     for comp in comps:
